@@ -77,7 +77,7 @@ def main():
         env = dict(ENV, VERIF_REPO=wt, VERIF_EVIDENCE=evid)
         for p in props:
             t0 = time.time()
-            rc, o = sh("./check %s --tier quick" % p, cwd="/verif", timeout=5400, env=env)
+            rc, o = sh("./check %s --tier quick" % p, cwd=os.environ.get("VERIF_HOME", "/verif"), timeout=5400, env=env)
             lines = [l for l in o.splitlines() if l.startswith("VIOLATION") or l.startswith("   C") or l.startswith("INCONC") or l.startswith("KNOWN")]
             res["checks"][p] = dict(rc=rc, wall=round(time.time() - t0), lines=[l[:300] for l in lines[:14]])
             if rc not in (0, 1):
